@@ -263,7 +263,13 @@ func checkQiAuthorisation(r *Runner, tx *types.Transaction, fail func(class, wit
 func TestC03(t *testing.T) {
 	chainProperty(t, "C03", func(r *Runner, fail func(class, witness, detail string)) Hooks {
 		n := 0
-		return Hooks{TxBuilt: func(w *World, tx *types.Transaction, flavour string, poolErr error) {
+		heads := 0
+		return Hooks{AfterHead: func(w *World, nd *Node, bi *BlockInfo, reorg bool) {
+			// the validator's own Qi path (what a block placed by a miner goes through, the pool is not involved)
+			if heads++; !reorg && heads%3 == 0 {
+				directQiVerdicts(nd, heads+int(bi.Number), fail)
+			}
+		}, TxBuilt: func(w *World, tx *types.Transaction, flavour string, poolErr error) {
 			n++
 			switch tx.Type() {
 			case types.QuaiTxType:
